@@ -284,8 +284,8 @@ Lemma wquiet_data_write : forall b k off bs, wquiet (OWrite b (FData k) off bs).
 Proof. intros b k off bs w. reflexivity. Qed.
 Lemma wquiet_counter_write : forall b off bs, wquiet (OWrite b FCounter off bs).
 Proof. intros b off bs w. reflexivity. Qed.
-Lemma wquiet_create : forall f, wquiet (OCreate f).
-Proof. intros f w. reflexivity. Qed.
+Lemma wquiet_create : forall f, f <> FMeta -> wquiet (OCreate f).
+Proof. intros f H w. destruct f; try reflexivity. contradiction. Qed.
 
 (* did the operation rewrite the index ? *)
 Definition idx_written (es : list fsop) : bool :=
@@ -1237,10 +1237,13 @@ Proof. intros o H. destruct o as [|f|b f off bs|f n|f g|f| |]; simpl in *; try c
 
 Lemma side_wquiet : forall o, side_op o -> wquiet o.
 Proof.
-  intros o H w. destruct o as [|f|b f off bs|f n|f g|f| |]; simpl in *; try contradiction; auto.
+  intros o H w. destruct o as [|f|b f off bs|f n|f g|f| |]; simpl in H; try contradiction.
+  - destruct f; simpl in H; try contradiction; reflexivity.
   - destruct f; simpl in H; try contradiction; reflexivity.
   - destruct f; simpl in H; try contradiction; reflexivity.
   - destruct H as [H1 H2]. destruct f; simpl in H1; try contradiction; destruct g; simpl in H2; try contradiction; reflexivity.
+  - reflexivity.
+  - reflexivity.
 Qed.
 
 Lemma gops_side : forall es fs, Forall side_op es -> gops (Some fs) es.
@@ -1330,9 +1333,11 @@ Lemma gc_op_idxlen : forall X w, Forall gc_op X -> wi_idxlen (fold_left win_step
 Proof.
   induction X as [|o r IH]; intros w H; simpl; auto.
   inversion H; subst. rewrite IH by auto.
-  destruct o as [|f|b f off bs|f n|f g|f| |]; simpl in *; try contradiction; auto.
+  destruct o as [|f|b f off bs|f n|f g|f| |]; simpl in H2; try contradiction.
+  - destruct f; try contradiction; reflexivity.
   - destruct f; try contradiction; reflexivity.
   - destruct f; try contradiction; destruct g; try contradiction; reflexivity.
+  - reflexivity.
 Qed.
 
 Lemma gc_cuts : forall fs w ib X P,
